@@ -107,6 +107,9 @@ UNIT = {
  'kani': {
    'modules': [{'file': X, 'code': 'kani_xref.rs'}],
    'harnesses': [
+     {'name': 'xref_get_bounds', 'fn': 'XRefTable::get', 'file': X, 'props': ['C02', 'C18', 'C01'], 'kind': 'bounded',
+      'bound': 'fresh tables of <= 3 objects, every object number', 'tier': 'thorough',
+      'contract': 'get(id) on new(n): Ok(entry) iff id <= n (Free sentinel at n, Invalid below), else Err(UnspecifiedXRefEntry{id}); never panics'},
      {'name': 'section_entries_mapping', 'fn': 'XRefSection::entries', 'file': X, 'props': ['C02'], 'kind': 'bounded',
       'bound': 'sections of <= 4 entries, unwind 6', 'covers': True,
       'contract': 'XRefSection::entries() yields (first_id + k, &entries[k]) for k = 0..len in order (the L0 contract of hoist_section_entries); add_free_entry/add_inuse_entry append Free/Raw with the given fields'},
